@@ -283,7 +283,51 @@ C12 = dict(
     ],
 )
 
-TABLE = {"C02": C02, "C06": C06, "C07": C07, "C09": C09, "C12": C12, "C16": C16, "C17": C17, "C20": C20}
+# --------------------------------------------------------------------------------------------------- C03 / C18 (fourth pass)
+_DSN = ("Uniform", "Normal", "Gamma", "Beta", "Exponential", "Gumbel", "Pareto", "Poisson", "T", "Bernoulli")
+_ds = lambda n: ("adt", n, "Cv.DS.%s α" % n)
+_DST = {"Uniform": [("lower", "f64"), ("upper", "f64")], "Normal": [("mu", "f64"), ("sigma", "f64")],
+        "Gamma": [("alpha", "f64"), ("beta", "f64"), ("normal_gen", _ds("Normal")), ("uniform_gen", _ds("Uniform"))],
+        "Beta": [("alpha", "f64"), ("beta", "f64"), ("alpha_gen", _ds("Gamma")), ("beta_gen", _ds("Gamma"))],
+        "Exponential": [("lambda", "f64"), ("rng", _ds("Uniform"))],
+        "Gumbel": [("mu", "f64"), ("beta", "f64"), ("uniform_gen", _ds("Uniform"))],
+        "Pareto": [("alpha", "f64"), ("minval", "f64")], "Poisson": [("lambda", "f64")], "T": [("dof", "f64")],
+        "Bernoulli": [("p", "f64")]}
+_C18O = dict(mut=True, int_arith=True, adts={n: "Cv.DS.%s α" % n for n in _DSN}, struct_types=_DST,
+             struct_mk={n: "Cv.DS.%s.mk" % n for n in _DSN}, fns={n + "::new": "Cv.DS.%s.new" % n for n in _DSN},
+             fn_ret={n + "::new": _ds(n) for n in _DSN}, opt_fns=tuple(n + "::new" for n in _DSN))
+_DFILE = {"Uniform": "uniform.rs", "Normal": "normal.rs", "Gamma": "gamma.rs", "Beta": "beta.rs",
+          "Exponential": "exponential.rs", "Gumbel": "gumbel.rs", "Pareto": "pareto.rs", "Poisson": "poisson.rs", "T": "t.rs",
+          "Bernoulli": "bernoulli.rs"}
+C18 = dict(
+    imports=["Compute.Model.Scalar", "Compute.Model.DistState"],
+    variables=ALL_CLASSES + " [Inhabited α]",
+    about="src/distributions/*.rs: the constructors `new` of ten univariate distributions (parameter validation `if .. { panic!() }` /\n"
+          "`assert!`, then the struct literal).  A struct literal `Name { a, b: e }` is the record constructor `Cv.DS.Name.mk` applied to\n"
+          "the fields in DECLARATION order (the field expressions are evaluated in the order of the literal); the nested constructor\n"
+          "calls `Uniform::new(0., 1.)`, `Normal::new(0., 1.)`, `Gamma::new(alpha, 1.)` are the model constructors `Cv.DS.*.new` (`none` = panic).",
+    functions=[(_D + _DFILE[n], n + "::new", O(n + "_new", **_C18O)) for n in _DSN],
+)
+
+_C03O = dict(mut=True, fns={"alea::f64": "u"}, field_calls={"rng.sample": ("u", "f64"), "uniform_gen.sample": ("u", "f64")},
+             extra_binders=[("u", "α")], bool_methods={"is_finite": "Cv.FiniteTest.isFinite {0}"},
+             type_alias={"Self::Output": "f64"})
+C03 = dict(
+    imports=["Compute.Model.Scalar", "Compute.Model.Samplers"],
+    variables=ALL_CLASSES + " [Inhabited α] [Cv.FiniteTest α]",
+    about="src/distributions/{exponential,gumbel,pareto,uniform}.rs: the inverse-CDF `sample()` bodies as functions of the RNG draw:\n"
+          "`alea::f64()` and the draw of the cached unit-uniform sub-sampler (`self.rng.sample()`, `self.uniform_gen.sample()`) are the\n"
+          "PARAMETER `u` (Model/Samplers.lean threads the generator state and takes `u` from it); `x.is_finite()` is\n"
+          "`Cv.FiniteTest.isFinite x`.",
+    functions=[
+        (_D + "exponential.rs", "Exponential::sample", O("Exponential_sample", **_C03O)),
+        (_D + "gumbel.rs", "Gumbel::sample", O("Gumbel_sample", **_C03O)),
+        (_D + "pareto.rs", "Pareto::sample", O("Pareto_sample", **_C03O)),
+        (_D + "uniform.rs", "Uniform::sample", O("Uniform_sample", **_C03O)),
+    ],
+)
+
+TABLE = {"C02": C02, "C03": C03, "C18": C18, "C06": C06, "C07": C07, "C09": C09, "C12": C12, "C16": C16, "C17": C17, "C20": C20}
 
 # =================================================================================================== LOOPS
 # Second pass of the translator: the simple loop / iterator-chain subset (`Opts(loops=True)`, see tools/rs2lean.py,
@@ -708,6 +752,8 @@ REQUIRED = {
         "Cv.SrcTie.C09.lnGamma_else_eq", "Cv.SrcTie.C09.erf_eq", "Cv.SrcTie.C09.erf_then_eq",
         "Cv.SrcTie.C09.erfF_step",
     ],
+    "C03": ["Cv.SrcTie.C03." + n for n in ("Exponential_sample_eq", "Gumbel_sample_eq", "Pareto_sample_eq", "Uniform_sample_eq")],
+    "C18": ["Cv.SrcTie.C18.%s_new_eq" % n for n in _DSN],
     "C12": [
         "Cv.SrcTie.C12.calcBroadcastShape_eq", "Cv.SrcTie.C12.calcBroadcastShape_fix",
     ],
